@@ -860,4 +860,105 @@ theorem choleskyForwardBatch_spec (n : Nat) (cholEx : (Nat → Nat → ℝ) → 
       simp only [List.getElem_map]
       exact hK.solves _ _ (hs _ hmem) h0 i hi
 
+/-- item-wise = batched for `Cholesky.forward`: the batch call returns exactly when every item alone returns, and
+then position `k` of the result is what the call on item `k` alone returns. -/
+theorem choleskyForwardBatch_itemwise (cholEx : (Nat → Nat → ℝ) → (Nat → Nat → ℝ) × Nat)
+    (solveK : (Nat → Nat → ℝ) → (Nat → ℝ) → Tab ℝ) (items : List ((Nat → Nat → ℝ) × (Nat → ℝ))) :
+    ((∃ xs, choleskyForwardBatch cholEx solveK items = .ok xs) ↔
+      ∀ it ∈ items, ∃ x, choleskyForward cholEx solveK it.1 it.2 = .ok x) ∧
+    (∀ xs, choleskyForwardBatch cholEx solveK items = .ok xs →
+      List.Forall₂ (fun x it => choleskyForward cholEx solveK it.1 it.2 = .ok x) xs items) := by
+  have hany : (items.any (fun it => (cholEx it.1).2 != 0)) = true ↔ ∃ it ∈ items, (cholEx it.1).2 ≠ 0 := by
+    rw [List.any_eq_true]
+    constructor
+    · rintro ⟨it, hit, h⟩; exact ⟨it, hit, by simpa using h⟩
+    · rintro ⟨it, hit, h⟩; exact ⟨it, hit, by simpa using h⟩
+  have hone : ∀ it : (Nat → Nat → ℝ) × (Nat → ℝ), (cholEx it.1).2 = 0 →
+      choleskyForward cholEx solveK it.1 it.2 = .ok (solveK (cholEx it.1).1 it.2) := by
+    intro it h0
+    unfold choleskyForward
+    simp [h0]
+  constructor
+  · constructor
+    · rintro ⟨xs, hxs⟩ it hit
+      unfold choleskyForwardBatch at hxs
+      by_cases hb : (items.any (fun it => (cholEx it.1).2 != 0)) = true
+      · rw [if_pos hb] at hxs; cases hxs
+      · have h0 : (cholEx it.1).2 = 0 := by
+          by_contra hne
+          exact hb (hany.mpr ⟨it, hit, hne⟩)
+        exact ⟨_, hone it h0⟩
+    · intro hall
+      unfold choleskyForwardBatch
+      have : ¬ (items.any (fun it => (cholEx it.1).2 != 0)) = true := by
+        rw [hany]
+        rintro ⟨it, hit, hne⟩
+        obtain ⟨x, hx⟩ := hall it hit
+        exact hne ((choleskyForward_ok_iff cholEx solveK it.1 it.2).mp ⟨x, hx⟩)
+      rw [if_neg this]
+      exact ⟨_, rfl⟩
+  · intro xs hxs
+    unfold choleskyForwardBatch at hxs
+    by_cases hb : (items.any (fun it => (cholEx it.1).2 != 0)) = true
+    · rw [if_pos hb] at hxs; cases hxs
+    · rw [if_neg hb, Except.ok.injEq] at hxs
+      subst hxs
+      have hall : ∀ it ∈ items, (cholEx it.1).2 = 0 := by
+        intro it hit
+        by_contra hne
+        exact hb (hany.mpr ⟨it, hit, hne⟩)
+      clear hb hany
+      induction items with
+      | nil => exact List.Forall₂.nil
+      | cons it rest ih =>
+        rw [List.map_cons]
+        exact List.Forall₂.cons (hone it (hall it (List.mem_cons_self ..)))
+          (ih fun it' h' => hall it' (List.mem_cons_of_mem _ h'))
+
+/-- item-wise = batched for `LSTSQ.forward`: the batch call returns exactly when no item's kernel result contains a
+NaN, and then position `k` is what the call on item `k` alone returns. -/
+theorem lstsqForwardBatch_itemwise (n : Nat) (sols : List (Option (Nat → ℝ))) :
+    ((∃ xs, lstsqForwardBatch n sols = .ok xs) ↔ ∀ s ∈ sols, ∃ x, lstsqForward n s = .ok x) ∧
+    (∀ xs, lstsqForwardBatch n sols = .ok xs →
+      List.Forall₂ (fun x s => lstsqForward n s = .ok x) xs sols) := by
+  have hany : (sols.any (fun s => s.isNone)) = true ↔ ∃ s ∈ sols, s = none := by
+    rw [List.any_eq_true]
+    constructor
+    · rintro ⟨s, hs, h⟩; exact ⟨s, hs, by simpa using h⟩
+    · rintro ⟨s, hs, h⟩; exact ⟨s, hs, by simp [h]⟩
+  constructor
+  · constructor
+    · rintro ⟨xs, hxs⟩ s hs
+      unfold lstsqForwardBatch at hxs
+      by_cases hb : (sols.any (fun s => s.isNone)) = true
+      · rw [if_pos hb] at hxs; cases hxs
+      · cases s with
+        | none => exact absurd (hany.mpr ⟨none, hs, rfl⟩) hb
+        | some x => exact ⟨_, rfl⟩
+    · intro hall
+      unfold lstsqForwardBatch
+      have : ¬ (sols.any (fun s => s.isNone)) = true := by
+        rw [hany]
+        rintro ⟨s, hs, rfl⟩
+        obtain ⟨x, hx⟩ := hall none hs
+        simp [lstsqForward] at hx
+      rw [if_neg this]
+      exact ⟨_, rfl⟩
+  · intro xs hxs
+    unfold lstsqForwardBatch at hxs
+    by_cases hb : (sols.any (fun s => s.isNone)) = true
+    · rw [if_pos hb] at hxs; cases hxs
+    · rw [if_neg hb, Except.ok.injEq] at hxs
+      subst hxs
+      have hall : ∀ s ∈ sols, s ≠ none := fun s hs h => hb (hany.mpr ⟨s, hs, h⟩)
+      clear hb hany
+      induction sols with
+      | nil => exact List.Forall₂.nil
+      | cons s rest ih =>
+        cases s with
+        | none => exact absurd rfl (hall none (List.mem_cons_self ..))
+        | some x =>
+          simp only [List.filterMap_cons, Option.map_some]
+          exact List.Forall₂.cons rfl (ih fun s' h' => hall s' (List.mem_cons_of_mem _ h'))
+
 end PP.LinSolve
